@@ -475,7 +475,10 @@ func (l *State) setServiceStateLocked(s *ServiceState) {
 	key := s.Service.CompoundServiceID()
 	old, hasOld := l.services[key]
 	if hasOld {
-		s.InSync = s.Service.IsSame(old.Service)
+		// An identical re-registration keeps the entry in sync only if the
+		// previous entry WAS in sync (and is not a pending deregistration,
+		// which may carry no definition at all).
+		s.InSync = old.InSync && !old.Deleted && old.Service != nil && s.Service.IsSame(old.Service)
 	}
 	l.services[key] = s
 
@@ -837,7 +840,8 @@ func (l *State) setCheckStateLocked(c *CheckState) {
 	id := c.Check.CompoundCheckID()
 	existing := l.checks[id]
 	if existing != nil {
-		c.InSync = c.Check.IsSame(existing.Check)
+		// See setServiceStateLocked: unchanged is not the same as synced.
+		c.InSync = existing.InSync && !existing.Deleted && existing.Check != nil && c.Check.IsSame(existing.Check)
 		// If the existing check has a Defercheck, it needs to be
 		// assigned to the new check
 		if existing.DeferCheck != nil && c.DeferCheck == nil {
